@@ -37,7 +37,7 @@ use std::sync::Arc;
 pub const META: PropertyMeta = PropertyMeta {
     id: "C19",
     level: "exploration",
-    rule: "upgrade: a file-system data dir with 1..3 accounts, each built by a proptest-generated content history (1..12 account-level ops of the C01 set on a cipher x KDF cell: secrets of all kinds, folders with flags, names, descriptions; optionally a folder that is created, filled and deleted; optionally one external file attachment; 0..3 account preferences, 0..2 global preferences, 0..3 server origins, 0..2 extra trusted devices of which some are revoked again). Every account is signed out, upgrade_accounts runs as a dry run (every source file must stay byte-identical and present, no database file may appear, the reported account list is the created one) and then for real (keep_stale_files and backup_directory drawn per case). Every account is then opened on the sqlite backend with the same password and compared with what was recorded before the upgrade: sync_status log by log (last commit, root, length for identity, account, device, files and every folder; folder set), every log record by record (time, commit hash, event bytes), the C01 read oracle against the history's model (folders, names, flags, descriptions, every decrypted secret, deleted ids absent), the C02 oracle (replay == memory == stored rows == model), trusted devices, account and global preferences, server origins, attachment plaintext through download_file, account list and labels. upgrade-server: the same generated client accounts are turned into server-side fs accounts with ServerStorage::create_account(CreateSet) under Paths::new_server (attachment ciphertext copied into the server's files dir), then dry run + upgrade + per account: sync_status, log records, device keys, folder summaries, every server vault decrypted with the client's folder key equal to the model, blob files byte-identical. differential: one generated history (1..25 ops of the C01 read mix incl. folder-level ops with caller-chosen ids, sign-out/in and fresh instances) executed step by step on a fresh fs account and a fresh sqlite account with the same cipher and KDF; after every step both pass the C01 read oracle and their models agree slot by slot (folders by creation order, secrets by creation order); at the end the two accounts are read directly and compared slot by slot (folder name, flags, description, projected meta and secret of every live secret) and the lengths of the identity, account, device, files and per-folder event logs are equal. Non-trivial (upgrade, upgrade-server) = at least 2 accounts in the dir and one of them deleted a folder; non-trivial (differential) = the history deleted or moved a secret and later reopened. Distinct = distinct case.",
+    rule: "upgrade: a file-system data dir with 1..3 accounts, each built by a proptest-generated content history (1..12 account-level ops of the C01 set on a cipher x KDF cell: secrets of all kinds, folders with flags, names, descriptions; optionally 1..2 rewrites (compaction, folder / account password change, cipher+KDF change); optionally a folder that is created, filled and deleted; optionally one external file attachment; 0..3 account preferences, 0..2 global preferences, 0..3 server origins, 0..2 extra trusted devices of which some are revoked again). Every account is signed out, upgrade_accounts runs as a dry run (every source file must stay byte-identical and present, no database file may appear, the reported account list is the created one) and then for real (keep_stale_files and backup_directory drawn per case). Every account is then opened on the sqlite backend with the same password and compared with what was recorded before the upgrade: sync_status log by log (last commit, root, length for identity, account, device, files and every folder; folder set), every log record by record (time, commit hash, event bytes), the C01 read oracle against the history's model (folders, names, flags, descriptions, every decrypted secret, deleted ids absent), the C02 oracle (replay == memory == stored rows == model), trusted devices, account and global preferences, server origins, attachment plaintext through download_file, account list and labels. upgrade-server: the same generated client accounts are turned into server-side fs accounts with ServerStorage::create_account(CreateSet) under Paths::new_server (attachment ciphertext copied into the server's files dir), then dry run + upgrade + per account: sync_status, log records, device keys, folder summaries, the replay of every server folder log decrypted with the client's folder key equal to the model, name / flags / description and secret-id set of the stored (header-only) server vaults, blob files byte-identical. differential: one generated history (1..25 ops of the C01 read mix incl. folder-level ops with caller-chosen ids, sign-out/in and fresh instances) executed step by step on a fresh fs account and a fresh sqlite account with the same cipher and KDF; after every step both pass the C01 read oracle and their models agree slot by slot (folders by creation order, secrets by creation order); at the end the two accounts are read directly and compared slot by slot (folder name, flags, description, projected meta and secret of every live secret) and the lengths of the identity, account, device, files and per-folder event logs are equal. Non-trivial (upgrade, upgrade-server) = at least 2 accounts in the dir and one of them deleted a folder; non-trivial (differential) = the history deleted or moved a secret and later reopened. Distinct = distinct case.",
     assumptions: &[
         "the post-upgrade sync against a server holding the pre-upgrade state needs engine B and is not covered here (hook: run_sync_part)",
         "audit trail and system messages are imported by the upgrader but are not named by the property and are not compared",
@@ -116,6 +116,9 @@ impl ServerSpec {
 #[derive(Clone, Debug, Serialize, Deserialize, PartialEq, Eq, Hash)]
 pub struct AccountPlan {
     pub history: History,
+    /// rewrites applied after the content history (compaction, password and cipher changes)
+    #[serde(default)]
+    pub rewrites: Vec<Op>,
     /// create a folder (name, flag choice), put a secret in it, delete it
     pub deleted_folder: Option<(String, u8)>,
     pub prefs: Vec<(String, PrefSpec)>,
@@ -152,6 +155,10 @@ fn server_strategy() -> impl Strategy<Value = ServerSpec> {
 fn plan_strategy(max_ops: usize, attach_weight: u32) -> impl Strategy<Value = AccountPlan> {
     (
         history_strategy(Mix::Content, max_ops),
+        prop_oneof![
+            7 => Just(vec![]),
+            3 => proptest::collection::vec(rewrite_strategy(), 1..3),
+        ],
         proptest::option::weighted(0.45, ("[a-z]{1,8}", 0u8..4)),
         proptest::collection::vec(pref_strategy(), 0..4),
         proptest::collection::vec(server_strategy(), 0..4),
@@ -161,9 +168,9 @@ fn plan_strategy(max_ops: usize, attach_weight: u32) -> impl Strategy<Value = Ac
             attach_weight => (any::<u16>(), 0u16..3000, any::<u8>()).prop_map(|(folder, size, seed)| Some(AttachSpec { folder, size, seed })),
         ],
     )
-        .prop_map(|(mut history, deleted_folder, prefs, servers, devices, attachment)| {
+        .prop_map(|(mut history, rewrites, deleted_folder, prefs, servers, devices, attachment)| {
             history.cfg.db = false;
-            AccountPlan { history, deleted_folder, prefs, servers, devices, attachment }
+            AccountPlan { history, rewrites, deleted_folder, prefs, servers, devices, attachment }
         })
 }
 
@@ -414,6 +421,8 @@ struct Before {
     attachments: Vec<Attachment>,
     folder_keys: BTreeMap<VaultId, AccessKey>,
     deleted_folder: bool,
+    /// log whose state differed between the long-lived and a fresh instance (not asserted)
+    stale_live_status: Option<String>,
     stats: HistStats,
 }
 
@@ -428,6 +437,9 @@ async fn build_account(temp: Arc<tempfile::TempDir>, plain_dir: &Path, index: us
     let mut w = AcctWorld::new_in(temp, &cfg, &label).await?;
     for (i, op) in plan.history.ops.iter().enumerate() {
         w.apply(op).await.map_err(|f| Failure::new(f.signature, format!("[source account {index}] op #{i} {}: {}", crate::prop_c01::op_label(op), f.message)))?;
+    }
+    for (i, op) in plan.rewrites.iter().enumerate() {
+        w.apply(op).await.map_err(|f| Failure::new(f.signature, format!("[source account {index}] rewrite #{i} {}: {}", crate::prop_c01::op_label(op), f.message)))?;
     }
     if let Some((name, flags)) = &plan.deleted_folder {
         let spec = SecretSpec { kind: 0, label: "doomed".into(), tags: vec![], favorite: false, a: "gone with its folder".into(), b: String::new(), big: 0, comment: None, recovery: None, fields: 0, opt: false };
@@ -504,7 +516,16 @@ async fn build_account(temp: Arc<tempfile::TempDir>, plain_dir: &Path, index: us
     w.check_reads(&format!("building source account {index}")).await?;
     check_replay(&w, &format!("building source account {index}"), true).await?;
 
-    let status = w.account.sync_status().await.map_err(h("sync_status of the source account"))?;
+    // The reference is the account as stored: a fresh instance on the same storage. The
+    // long-lived instance can report a stale identity log (after change_account_password the
+    // storage keeps the pre-change identity log handle); that is recorded as a class, not asserted.
+    let live = status_map(&w.account.sync_status().await.map_err(h("sync_status of the source account"))?);
+    w.reopen().await.map_err(|f| Failure::new(f.signature, format!("[source account {index}] fresh instance before the upgrade: {}", f.message)))?;
+    let status = w.account.sync_status().await.map_err(h("sync_status of the source account (fresh instance)"))?;
+    let stale_live_status = {
+        let fresh = status_map(&status);
+        fresh.iter().find(|(k, v)| live.get(*k) != Some(*v)).map(|(k, _)| log_class(k).to_string())
+    };
     let records = all_records(&w.account).await.map_err(h("records of the source account"))?;
     let devices = device_set(w.account.trusted_devices().await.map_err(h("trusted_devices of the source account"))?);
     let prefs = read_prefs(target.clone(), Some(&w.account_id)).await.map_err(h("source preferences"))?;
@@ -527,6 +548,7 @@ async fn build_account(temp: Arc<tempfile::TempDir>, plain_dir: &Path, index: us
         attachments,
         folder_keys,
         deleted_folder: !w.model.deleted_folders.is_empty(),
+        stale_live_status,
         stats: w.stats.clone(),
     };
     Ok((w, before))
@@ -539,6 +561,9 @@ fn note_classes(info: &mut CaseInfo, befores: &[Before]) {
         info.class(format!("source/{}", b.cfg.label()));
         if b.deleted_folder {
             info.class("deleted-folder");
+        }
+        if let Some(l) = &b.stale_live_status {
+            info.class(format!("observed/live-instance-status-stale/{l}"));
         }
         if !b.attachments.is_empty() {
             info.class("attachment");
@@ -560,6 +585,9 @@ fn note_classes(info: &mut CaseInfo, befores: &[Before]) {
         }
         if b.stats.delete_or_move {
             info.class("deleted-or-moved-secret");
+        }
+        for c in b.stats.classes.iter().filter(|c| c.starts_with("compact") || c.starts_with("change-")) {
+            info.class(format!("source-rewrite/{c}"));
         }
         if b.model.folders.iter().all(|f| f.secrets.is_empty()) {
             info.class("no-live-secret");
